@@ -17,7 +17,7 @@ theorem tool_flag_irrelevant (i : ToolInput) (h : ∀ f ∈ i.files, inExcludedD
 /-- END TO END: every module the walker visits is a module of mypy's graph that was discovered: a kept file, or the
     `__init__.py` of a kept package directory. -/
 theorem tool_analysed_kept (i : ToolInput) {o : ToolOutput} (h : runTool i = .ok o) :
-    ∃ root d, discoverFrom i.srcDir i.files i.isTestRun = .ok (root, d) ∧
+    ∃ root d, discoverSorted i.srcDir i.files i.isTestRun = .ok (root, d) ∧
       o.analysed = selectAsts (i.graph.map (·.path)) d ∧
       ∀ p ∈ o.analysed, p ∈ i.graph.map (·.path) ∧ (p ∈ d.walkable.map pathStr ∨ pyEndsWith p "__init__.py" = true) := by
   obtain ⟨root, d, r, ws, text, gen, hd, _, _, _, ho⟩ := pl_runTool_ok h
